@@ -112,6 +112,41 @@ def run(ctx):
     if not r.ok:
         ctx.fail("Auth specification: %s violated" % r.violation["name"], dict(trace=r.trace))
         return
+    # verification under faults of the key-derivation step (the 32 MiB scrypt work area can fail to allocate): whatever happens inside, a wrong password
+    # is never reported as right - an exception is an acceptable answer, True is not
+    KDF = getattr(A, "Scrypt", None)
+    if KDF is not None:
+        good = A.Auth.hash_password(PW["a"])
+        for nfail in (1, 2, 3, 8):
+            for exc in (MemoryError, OSError):
+                left = [nfail]
+
+                class Faulty(KDF):
+                    def verify(s, *a, **k):
+                        if left[0] > 0:
+                            left[0] -= 1
+                            raise exc("injected fault in the key derivation")
+                        return KDF.verify(s, *a, **k)
+
+                    def derive(s, *a, **k):
+                        if left[0] > 0:
+                            left[0] -= 1
+                            raise exc("injected fault in the key derivation")
+                        return KDF.derive(s, *a, **k)
+                A.Scrypt = Faulty
+                try:
+                    for q in ("a_bit", "empty"):
+                        left[0] = nfail
+                        try:
+                            out = A.Auth.verify_password(PW[q], good)
+                        except Exception:
+                            out = "raised"
+                        ctx.case(("fault", nfail, exc.__name__, q))
+                        if out is True:
+                            ctx.fail("verify_password(%s, hash of 'a') returns True when the key derivation fails %d time(s) with %s" % (q, nfail, exc.__name__),
+                                     dict(wrong_password=q, faults=nfail, exception=exc.__name__))
+                finally:
+                    A.Scrypt = KDF
     wd = T.workdir("c19")
     try:
         inp = os.path.join(wd, "ops.json")
